@@ -298,13 +298,19 @@ Proof.
   apply not_through. apply negb_true_iff. exact H.
 Qed.
 
-(* selecting a database needs some permission on it *)
-Definition holds_any_b (c : cx) : bool :=
-  kind_eqb (cx_kind c) KSys || (dbsel_eqb (cx_tgt c) DOwn && negb (kind_eqb (cx_kind c) KNone)).
+(* selecting a database needs some permission on it: UseDatabase judges by the user record of the
+   credential, OpenSession by the record as it is now (it authenticates afresh) *)
+Definition judged_kind (g : gate) (c : cx) : kind :=
+  if is_class g ClCred then kind_now (cx_kind c) (cx_st c) else cx_kind c.
+Definition holds_any_b (k : kind) (c : cx) : bool :=
+  kind_eqb k KSys || (dbsel_eqb (cx_tgt c) DOwn && negb (kind_eqb k KNone)).
 Definition selects (g : gate) : bool :=
   (is_class g ClSelect || is_class g ClCred) && negb (String.eqb (gt_rpc g) "Login").
 Definition chk_select (g : gate) (p : pgate) : cx -> bool :=
-  if selects g then (fun c => negb (cfg_eqb (cx_cfg c) CfgAuth) || negb (through p c) || holds_any_b c)
+  if selects g
+  then (let cr := is_class g ClCred in
+        fun c => negb (cfg_eqb (cx_cfg c) CfgAuth) || negb (through p c) ||
+                 holds_any_b (if cr then kind_now (cx_kind c) (cx_st c) else cx_kind c) c)
   else (fun _ => true).
 Lemma select_sweep : sweep chk_select = true.
 Proof. vm_compute. reflexivity. Qed.
@@ -312,17 +318,17 @@ Proof. vm_compute. reflexivity. Qed.
 Lemma select_requires_permission :
   forall g c, In g gates -> (class_of g = Some ClSelect \/ class_of g = Some ClCred) -> gt_rpc g <> "Login" ->
               cx_cfg c = CfgAuth -> decide g c = Through ->
-              cx_kind c = KSys \/ (cx_tgt c = DOwn /\ cx_kind c <> KNone).
+              judged_kind g c = KSys \/ (cx_tgt c = DOwn /\ judged_kind g c <> KNone).
 Proof.
   intros g c Hg Hc Hl Ho Hd. pose proof (sweep_all _ select_sweep g c Hg) as H.
   unfold chk_select in H.
   assert (selects g = true) as Hsel.
   { unfold selects. apply String.eqb_neq in Hl. rewrite Hl.
     destruct Hc as [Hc|Hc]; rewrite (is_class_of _ _ Hc); cbn; try rewrite orb_true_r; reflexivity. }
-  rewrite Hsel in H. cbv beta in H. rewrite Ho, (through_of _ _ Hd) in H.
-  assert (holds_any_b c = true) as Hb by exact H.
-  clear H. destruct c as [cf k h s t st]. unfold holds_any_b in Hb. cbn in *.
-  destruct k, t; cbn in Hb; try discriminate; try (left; reflexivity); right; split; congruence.
+  rewrite Hsel in H. cbv beta zeta in H. rewrite Ho, (through_of _ _ Hd) in H.
+  fold (judged_kind g c) in H. cbn [cfg_eqb negb orb] in H.
+  unfold holds_any_b in H. destruct (judged_kind g c), (cx_tgt c); cbn in H; try discriminate;
+    try (left; reflexivity); right; split; congruence.
 Qed.
 
 (* ------------------------------------------------------------------ 6. the system database *)
